@@ -4,13 +4,15 @@
 import Oracle.Avc
 import Oracle.Rtmp
 import Oracle.Flv
+import Oracle.Amf0
 
 namespace Oracle
 
 def handlers : List (String × (String → List String → Option String)) := [
   ("avc.", Oracle.Avc.handle),
   ("rtmp.", Oracle.Rtmp.handle),
-  ("flv.", Oracle.Flv.handle)
+  ("flv.", Oracle.Flv.handle),
+  ("amf0.", Oracle.Amf0.handle)
 ]
 
 def dispatch (op : String) (args : List String) : Option String :=
